@@ -21,7 +21,7 @@ PY = "/venv/bin/python"
 
 
 def _reexec():
-    want = {"PYTHONHASHSEED": "0", "OMP_NUM_THREADS": "1", "OPENBLAS_NUM_THREADS": "1", "MKL_NUM_THREADS": "1"}
+    want = {"PYTHONHASHSEED": os.environ.get("SIMCHECK_HASHSEED", "0"), "OMP_NUM_THREADS": "1", "OPENBLAS_NUM_THREADS": "1", "MKL_NUM_THREADS": "1"}
     if all(os.environ.get(k) == v for k, v in want.items()) and os.path.realpath(sys.executable) == os.path.realpath(PY):
         return
     if os.environ.get("SIMCHECK_REEXEC") == "1":
@@ -157,6 +157,7 @@ def main():
     ap.add_argument("--replay")
     ap.add_argument("--deadline", type=float, default=None, help="seconds after which no new plan is started")
     ap.add_argument("--no-evidence", action="store_true")
+    ap.add_argument("--dump-digests", help="write per-plan event-log digests (determinism self-test)")
     args = ap.parse_args()
     if args.replay:
         return do_replay(args.replay)
@@ -182,6 +183,7 @@ def main():
     known_seen = {}
     new_viol = {}
     notes = {}
+    per_plan = {}
     try:
         for i, r in pool.map_unordered("checks.dispatch:execute", plans, deadline=deadline):
             evaluations += 1
@@ -193,6 +195,9 @@ def main():
             s = r.get("summary")
             if s:
                 sums.extend(s if isinstance(s, list) else [s])
+            if args.dump_digests:
+                ss = s if isinstance(s, list) else [s]
+                per_plan[i] = [[x.get("digest"), x.get("interleave")] for x in ss if x] + [sorted(map(str, (common.signature(v) for v in r["violations"])))]
             if r.get("sample") is not None and (len(samples) < 4 or (r.get("nontrivial") and len(samples) < 8)):
                 samples.append(r["sample"])
             if r.get("note"):
@@ -235,6 +240,9 @@ def main():
     finally:
         pool.close()
     wall = time.time() - t0
+    if args.dump_digests:
+        with open(args.dump_digests, "w") as f:
+            json.dump({str(k): v for k, v in sorted(per_plan.items())}, f)
     if not args.no_evidence:
         agg = common.merge_summaries(sums)
         ev = {
